@@ -20,7 +20,8 @@ def run(ctx):
             mode = special | rng.choice([0o755, 0o644, 0o600, 0o777, 0o711, 0o070, 0o007, 0, rng.randrange(0o1000)])
             if i == 0:
                 mode = 0o6755      # corpus: the repaired defect F3
-            mtime = rng.choice([1_000_000_000_123_456_789, 4_000_000_000_000_000_001, 1, 1_700_000_000_000_000_000, 946684800_999_999_999, rng.randrange(10 ** 18)])
+            mtime = rng.choice([1_000_000_000_123_456_789, 4_000_000_000_000_000_001, 1, 1_700_000_000_000_000_000, 946684800_999_999_999, rng.randrange(10 ** 18),
+                                -1, -152_391_232_750_000_000, -86_400_000_000_000, -(10 ** 9) * rng.randrange(1, 10 ** 9) - rng.randrange(10 ** 9)])      # before 1970, with and without a sub-second part
             xattr = {f'user.k{j}': bytes([rng.randrange(256) for _ in range(rng.randint(0, 9))]) for j in range(rng.choice([0, 0, 1, 3]))}
             uid, gid = rng.choice([(0, 0), (1000, 1000), (12345, 54321), (0, 7)])
             size = rng.choice([0, 10, 5000, 30000])
@@ -72,6 +73,8 @@ def run(ctx):
                 ctx.violation(f'case-{i}.json', dict(argv=argv, umask=oct(umask), source=dict(mode=oct(mode), mtime=mtime, uid=uid, gid=gid), got={**got, 'mode': oct(got['mode']), 'xattr': {k: v.hex() for k, v in got['xattr'].items()}},
                                                      prior=prior, oracle=bad), 'C10: ' + '; '.join(bad))
                 continue
+            if mtime < 0:
+                ctx.count('mtime.before_1970'); continue          # (the model's timestamps are natural numbers: oracle only)
             # ---- correspondence: end state vs Xcp.finalise, and the per-file monitor
             d0 = (d0_mode, 3 if prior == 'existing' else 0, 4 if prior == 'existing' else 0)
             cfgt = fileproj.cfg_tokens(ownership=flags['ownership'], no_perms=flags['no_perms'], no_timestamps=flags['no_timestamps'], fsync=flags['fsync'])
@@ -129,6 +132,10 @@ def run(ctx):
             u = root + '/U'
             shutil.rmtree(u, ignore_errors=True); os.makedirs(u + '/S'); os.chmod(root, 0o755)
             open(u + '/S/f', 'wb').write(b'payload'); os.utime(u + '/S/f', ns=(10 ** 18, 10 ** 18)); os.chmod(u + '/S/f', 0o640)
+            ro = {}
+            for nm, md in (('ro444', 0o444), ('ro555', 0o555), ('ro400', 0o400)):     # read-only files carrying user xattrs
+                open(f'{u}/S/{nm}', 'wb').write(b'data-' + nm.encode()); os.setxattr(f'{u}/S/{nm}', 'user.k', b'v-' + nm.encode()); os.setxattr(f'{u}/S/{nm}', 'user.sha', b'0' * 40)
+                os.utime(f'{u}/S/{nm}', ns=(10 ** 18 + 5, 10 ** 18 + 5)); os.chmod(f'{u}/S/{nm}', md); os.chown(f'{u}/S/{nm}', 61234, 61234); ro[nm] = md
             for pth, ug in ((u, (61234, 61234)), (u + '/S', (61234, 61234)), (u + '/S/f', (61234, 61235))):
                 os.chown(pth, *ug)
             argv = ['--ownership', '-r', '-T', '--driver', driver, 'S', 'D']
@@ -141,6 +148,16 @@ def run(ctx):
                 if (st.st_uid, st.st_gid) != (61234, 61235) or st.st_mode & 0o7777 != 0o640 or st.st_mtime_ns != 10 ** 18:
                     ctx.violation(f'unpriv-owner-{driver}.json', dict(argv=argv, run_as='uid 61234 gid 61234 groups [61235]', source='61234:61235 0640', got=f'{st.st_uid}:{st.st_gid} {oct(st.st_mode & 0o7777)} mtime {st.st_mtime_ns}'),
                                   f'C10: --ownership as uid 61234 (member of group 61235): destination is {st.st_uid}:{st.st_gid} mode {oct(st.st_mode & 0o7777)}, source 61234:61235 mode 0640 ({driver})')
+                for nm, md in ro.items():
+                    try:
+                        xs = {k: os.getxattr(f'{u}/D/{nm}', k) for k in os.listxattr(f'{u}/D/{nm}')}
+                        st2 = os.lstat(f'{u}/D/{nm}')
+                    except OSError as ex:
+                        xs, st2 = {'error': str(ex)}, None
+                    if st2 is None or st2.st_mode & 0o7777 != md or xs.get('user.k') != b'v-' + nm.encode() or xs.get('user.sha') != b'0' * 40:
+                        ctx.violation(f'unpriv-xattr-{driver}-{nm}.json', dict(argv=argv, run_as='uid 61234', file=nm, source_mode=oct(md), got_mode=oct(st2.st_mode & 0o7777) if st2 else None, got_xattrs={k: repr(v) for k, v in xs.items()}),
+                                      f'C10: run as an unprivileged user: the read-only file {nm} (mode {oct(md)}) lost its user xattrs or its mode at the destination ({driver}): {sorted(xs)}')
+                        break
             shutil.rmtree(u, ignore_errors=True)
         # ---- with --no-perms every regular file keeps the DEFAULT mode (0666 & ~umask), whatever other threads are doing at the
         # moment it is created (special files being recreated next to it, any interleaving)
